@@ -1,7 +1,7 @@
 PROP = {
     "title": "Stream decoding is independent of how the io.Reader delivers bytes",
     "run_modules": ["RunReader"],
-    "n": {"quick": 3000, "thorough": 60000},
+    "n": {"quick": 3000, "thorough": 40000},
     "level": "proof",
     "technique": "Coq model of the byteReader/teeReader adaptors, the getJson scanner, the reader entry points, bulk handlers and file readers over reader schedules + theorems over all schedules/streams + model/implementation correspondence under scripted io.Readers by vm_compute + Go-side oracle",
     "design_ref": "DESIGN.md section 6, C13",
